@@ -522,6 +522,8 @@ def check_never_equal(idx, run):
 
 def check(idx, run):
     run.explanation = __doc__
+    from rules.common_parallel import check_fresh_unknown
+    check_fresh_unknown(idx, run, "C08.R5")
     eff = Effects(idx)
     check_progress(idx, run, eff)
     check_verdicts(idx, run)
